@@ -63,6 +63,18 @@ func c01Hub(x *Ctx) {
 		c.hub.RegisterRemoteSKI(a.ski)
 		c.hub.Start()
 	})
+	// did A complete its connection with B before the user withdrew the pairing?
+	completedBefore := func() bool {
+		if !duringDial {
+			return false
+		}
+		for _, e := range x.Events() {
+			if e.Kind == "app-setup" && e.A == "A" && e.B == b.ski && e.Seq < withdrawnSeq {
+				return true
+			}
+		}
+		return false
+	}
 	x.Go("A:user", func() {
 		a.create()
 		a.app.mu.Lock()
@@ -106,6 +118,10 @@ func c01Hub(x *Ctx) {
 			case "unregister-B":
 				a.hub.UnregisterRemoteSKI(b.ski)
 			case "detail-B":
+				if storedThenWithdrawn == "cancel-during-dial" && completedBefore() {
+					// nothing was pending when the user cancelled: the completed pairing stays
+					break
+				}
 				if st := a.hub.PairingDetailForSki(b.ski).State(); st == 5 || st == 7 {
 					x.Violate("pairing-detail-trusted-without-trust", "", fmt.Sprintf("hub A reports pairing state %d for B, which it never trusted", st))
 					return
@@ -113,15 +129,7 @@ func c01Hub(x *Ctx) {
 			}
 		}
 		simrt.Sleep(100 * time.Second)
-		completedBeforeWithdrawal := false
-		if duringDial {
-			for _, e := range x.Events() {
-				if e.Kind == "app-setup" && e.A == "A" && e.B == b.ski && e.Seq < withdrawnSeq {
-					completedBeforeWithdrawal = true
-				}
-			}
-		}
-		if storedThenWithdrawn == "cancel-during-dial" && completedBeforeWithdrawal {
+		if storedThenWithdrawn == "cancel-during-dial" && completedBefore() {
 			// nothing was pending any more: a cancel leaves a completed connection alone
 			x.Probe("cancel-after-completion")
 			x.S.Stop("done")
